@@ -2,7 +2,7 @@
 import bisect
 
 ID = "C02"
-EXTRA_PROPS = ["OVecFnsTables"]   # compare_item / sort_vector / get / append / merge_till as TRANSLATED from src/orderedvec.rs = the model
+EXTRA_PROPS = ["OVecFnsTables", "C02Translated"]   # compare_item / sort_vector / get / append / merge_till as TRANSLATED from src/orderedvec.rs = the model
 N_QUICK, N_THOROUGH = 1500, 150000
 STRICT_MODEL = False   # the model also predicts the order of equal ranks (stable sort); the property does not fix it
 RULE = ("histories over append/get/len/iter/clear on the real OrderedVec<T>, T = (i32 key, unique id) ordered by key or the real "
